@@ -127,6 +127,7 @@ func runValueWaits(v0 int, ops []vop, waiters []vwaiter, finish func(cur int, ou
 	for i := range launchedAt {
 		launchedAt[i] = -1
 	}
+	gids := make([]atomic.Int64, len(waiters))
 	launch := func(k int) {
 		for i, w := range waiters {
 			if w.Start != k || launchedAt[i] >= 0 {
@@ -136,11 +137,15 @@ func runValueWaits(v0 int, ops []vop, waiters []vwaiter, finish func(cur int, ou
 			launchedFalse[i] = !w.cond(timeline[k])
 			trace("launch waiter %d %s (value %d)", i, w.Name, timeline[k])
 			go func(i int, w vwaiter) {
+				gids[i].Store(curGoroutineID())
 				w.wait()
 				events <- vevent{i, int(issued.Load())}
 			}(i, w)
+			if launchedFalse[i] {
+				// let the waiter really go to sleep before the next mutation (best effort, no verdict)
+				waitParked(gids[i].Load, func() bool { return false }, 2*time.Millisecond)
+			}
 		}
-		ctl.Settle(50 * time.Microsecond)
 	}
 	apply := func(o vop) {
 		issued.Add(1)
@@ -427,12 +432,15 @@ func runPopOrWait(c powCase) (kind, violation string, trace []string, waited int
 			}
 			outstanding++
 			tr("launch PopOrWait waiter %d", w)
+			var gid atomic.Int64
 			go func(w int) {
+				gid.Store(curGoroutineID())
 				e, ok := s.PopOrWait(running.Load)
 				events <- powEvent{w, e, ok, shutdownIssued.Load()}
 			}(w)
+			// best effort: let it reach its wait (or return) before the next step
+			waitParked(gid.Load, func() bool { return len(events) > 0 }, 2*time.Millisecond)
 		}
-		ctl.Settle(50 * time.Microsecond)
 	}
 	next := 0
 	for k, o := range c.Ops {
@@ -548,12 +556,14 @@ func runShutdownWindow(c windowCase) (violation string) {
 	running.Store(true)
 	done := make(chan bool, c.Sleepers+1)
 	for i := 0; i < c.Sleepers; i++ {
+		var gid atomic.Int64
 		go func() {
+			gid.Store(curGoroutineID())
 			_, ok := s.PopOrWait(running.Load)
 			done <- ok
 		}()
+		waitParked(gid.Load, func() bool { return false }, 2*time.Millisecond)
 	}
-	ctl.Settle(200 * time.Microsecond)
 	inWindow := make(chan struct{})
 	release := make(chan struct{})
 	var first atomic.Bool
